@@ -126,6 +126,22 @@ def run (t : Tier) : Emit Unit := do
     let extra ← liftGen (randBytes more)
     let p2 := { p with payload := p.payload ++ extra, header := { p.header with hasPayload := true } }
     emit "C11" (writeCase p2 (some "err:other:n=0:") "write-oversize")
+  -- (5b) the redundant length fields of the caller's struct contradict the data (TransportPrivateDataLength 0 / short /
+  --      long with private data present; adaptation field and extension Length fields stale): the bytes written are
+  --      those of the reference encoding, which derives every length from the data
+  for _ in [0:150 * t.scale] do
+    let p ← liftGen genPacket
+    match p.adaptationField with
+    | none => pure ()
+    | some a =>
+      if a.hasTransportPrivateData && !a.isOneByteStuffing then
+        let bs := Spec.tsEncode p
+        let n := a.transportPrivateData.length
+        for stale in ([0, 1, (n : Int) + 1, 255, (n : Int) - 1] : List Int) do
+          if stale ≥ 0 && stale != (n : Int) then
+            let a' := { a with transportPrivateDataLength := stale, length := 0 }
+            let p' := { p with adaptationField := some a' }
+            emit "C11" (writeCase p' (some s!"ok:n=188:{hex bs}") "write-stale-length-fields")
   -- (6) malformed input: mutations of conformant packets and random bytes (model only: never a panic)
   for _ in [0:400 * t.scale] do
     let p ← liftGen genPacket
